@@ -92,6 +92,14 @@ class Outcome:
         self.exc = None
 
 
+def _etext(e):
+    # str(exc) realises a symbolic message at the C level; the constructor argument is the same text
+    a = getattr(e, "args", ())
+    if len(a) >= 1 and isinstance(a[0], str):
+        return a[0]
+    return str(e)
+
+
 def classify(out: Outcome, fn):
     """Run fn() and record how it ended."""
     try:
@@ -102,9 +110,9 @@ def classify(out: Outcome, fn):
     except SM.CancelledError:
         out.kind = "cancelled"
     except ERR.RetryableError as e:
-        out.kind, out.code, out.text, out.exc = "retryable", e.code, str(e), e
+        out.kind, out.code, out.text, out.exc = "retryable", e.code, _etext(e), e
     except ERR.NonRetryableError as e:
-        out.kind, out.code, out.text, out.exc = "nonretryable", e.code, str(e), e
+        out.kind, out.code, out.text, out.exc = "nonretryable", e.code, _etext(e), e
     except HarnessError:
         raise
     except Exception as e:
@@ -118,7 +126,7 @@ def run_stub(script, call, cancel_at=None, token=None):
     ENV.reset(script, cancel_at, token)
     out = Outcome()
     classify(out, lambda: drive(call(ScriptedReadStream(), RecordingWriteStream())))
-    out.done = ENV.now
+    out.done = ENV.tick
     out.wire = list(ENV.wire)
     out.first_rx_wire = ENV.first_receive_wire_len
     return out
@@ -151,21 +159,18 @@ def run_real(script, call, T_ticks, cancel_at=None, token=None):
         send, recv = anyio.create_memory_object_stream(1000)
 
         async def feed():
-            for t, it in script:
-                await vloop.sleep_until_tick(t)
+            for pos, (t, it) in enumerate(script):
+                await vloop.sleep_until_arrival(t, pos)
                 await send.send(it(wire.items) if callable(it) else it)
 
         async def canceller():
-            await vloop.sleep_until_tick(cancel_at, half=False)
+            await vloop.sleep_until_cancel(cancel_at)
             token.cancel()
 
         async with anyio.create_task_group() as tg:
             tg.start_soon(feed)
             if cancel_at is not None and token is not None:
-                if cancel_at <= 0 and cancel_at != 0:
-                    token.cancel()
-                else:
-                    tg.start_soon(canceller)
+                tg.start_soon(canceller)
 
             async def body():
                 return await call(RecvProxy(recv, wire, out), wire)
@@ -179,7 +184,7 @@ def run_real(script, call, T_ticks, cancel_at=None, token=None):
                     res.append(("exc", e))
 
             await runner()
-            out.done = vloop.now_ticks()
+            out.done = int(vloop.now_ticks())  # floor: the tick the completion instant lies in
             tg.cancel_scope.cancel()
         return res[0]
 
